@@ -63,7 +63,9 @@ Inductive opx :=
   | Each (a : opx)                                (* ElementWise(a) *)
   | Flatten (maxl : option nat)
   | Until (maxa : nat) (a : opx)                  (* UntilChange(a, max_attempts) *)
-  | Plain (a : opx).                              (* a plain Python callable (not an Operation) doing what [a] does *)
+  | Plain (a : opx)                               (* a plain Python callable (not an Operation) doing what [a] does *)
+  | GGet (k : nat) (dflt : bool)                  (* GlobalStateGetter(key, default = [] | None) *)
+  | GSet (k : nat) (from_input : bool).           (* GlobalStateSetter(key): stores its input (or the constant []), returns [] *)
 
 (* ---- selectors --------------------------------------------------------------------------------- *)
 Section Sel.
@@ -280,10 +282,26 @@ Section Eval.
   Definition iter_res {A} (f : A -> res A) : nat -> A -> res A :=
     fix go k a := match k with O => Ok a | S k' => match f a with Ok a' => go k' a' | Err e => Err e end end.
 
-  Fixpoint eval (x : opx) (pop : list item) (st : est) {struct x} : res (list item * est) :=
+  (* the global state of one evaluation: key -> stored list.  [gst] = (PRNG, next identity) and the global state *)
+  Definition gstate := list (nat * list item).
+  Definition gst := (est * gstate)%type.
+  Fixpoint gs_get (k : nat) (g : gstate) : option (list item) :=
+    match g with [] => None | (k', l) :: r => if k' =? k then Some l else gs_get k r end.
+  Definition gs_set (k : nat) (l : list item) (g : gstate) : gstate := (k, l) :: g.
+  Definition st_r (st : gst) : R := fst (fst st).
+  Definition st_n (st : gst) : nat := snd (fst st).
+  Definition with_r (st : gst) (r : R) : gst := ((r, snd (fst st)), snd st).
+
+  Fixpoint eval (x : opx) (pop : list item) (st : gst) {struct x} : res (list item * gst) :=
     match x with
-    | Prim p => run_prim p pop st
-    | Plain a => eval a pop st
+    | Prim p => dor o <- run_prim p pop (fst st); Ok (fst o, (snd o, snd st))
+    | Plain a =>     (* called without global_state: the operation inside starts with an empty one of its own *)
+        dor o <- eval a pop (fst st, []); Ok (fst o, (fst (snd o), snd st))
+    | GGet k dflt =>
+        match gs_get k (snd st) with
+        | Some l => Ok (l, st)
+        | None => if dflt then Ok ([], st) else Err EKey end
+    | GSet k fi => Ok ([], (fst st, gs_set k (if fi then pop else []) (snd st)))
     | Ident => Ok (pop, st)
     | Pipe a b => dor o <- eval a pop st; eval b (fst o) (snd o)
     | Union_ a b => dor o1 <- eval a pop st; dor o2 <- eval b pop (snd o1); Ok (dedup_id [] (fst o1 ++ fst o2), snd o2)
@@ -298,8 +316,8 @@ Section Eval.
         dor o1 <- eval a pop st; dor o2 <- eval b pop (snd o1);
         Ok (filter (fun y => xorb (memb (item_id y) (ids (fst o1))) (memb (item_id y) (ids (fst o2)))) (fst o1 ++ fst o2), snd o2)
     | Repeat k a =>
-        iter_res (fun acc : list item * est => dor o <- eval a pop (snd acc); Ok (fst acc ++ fst o, snd o)) (Z.to_nat k) ([], st)
-    | Power k a => iter_res (fun acc : list item * est => eval a (fst acc) (snd acc)) (Z.to_nat k) (pop, st)
+        iter_res (fun acc : list item * gst => dor o <- eval a pop (snd acc); Ok (fst acc ++ fst o, snd o)) (Z.to_nat k) ([], st)
+    | Power k a => iter_res (fun acc : list item * gst => eval a (fst acc) (snd acc)) (Z.to_nat k) (pop, st)
     | SliceI i a =>
         dor o <- eval a pop st;
         match py_index i (length (fst o)) with
@@ -312,28 +330,28 @@ Section Eval.
     | SliceS lo hi step a => dor o <- eval a pop st; Ok (py_slice lo hi step (fst o), snd o)
     | Invert a => dor o <- eval a pop st; Ok (filter (fun y => negb (memb (item_id y) (ids (fst o)))) pop, snd o)
     | WithProb p a =>
-        let (z, r1) := real G (fst st) in
-        if lt_prob z p then eval a pop (r1, snd st) else Ok (pop, (r1, snd st))
+        let (z, r1) := real G (st_r st) in
+        if lt_prob z p then eval a pop (with_r st r1) else Ok (pop, with_r st r1)
     | Choice2 a p b q limit =>
-        let (z, r1) := real G (fst st) in
-        dor o1 <- (if lt_prob z p then dor o <- eval a pop (r1, snd st); Ok (fst o, snd o, 1) else Ok (pop, (r1, snd st), 0));
+        let (z, r1) := real G (st_r st) in
+        dor o1 <- (if lt_prob z p then dor o <- eval a pop (with_r st r1); Ok (fst o, snd o, 1) else Ok (pop, with_r st r1, 0));
         let '(pop1, st1, n1) := o1 in
         if match limit with Some l => (n1 =? 1) && (l =? 1) | None => false end then Ok (pop1, st1) else
-        let (z2, r2) := real G (fst st1) in
-        if lt_prob z2 q then eval b pop1 (r2, snd st1) else Ok (pop1, (r2, snd st1))
+        let (z2, r2) := real G (st_r st1) in
+        if lt_prob z2 q then eval b pop1 (with_r st1 r2) else Ok (pop1, with_r st1 r2)
     | IfLen thr t f => if thr <? length pop then eval t pop st else eval f pop st
     | Each a =>
-        dor o <- foldi (fun (_ : nat) y (acc : list item * est) =>
+        dor o <- foldi (fun (_ : nat) y (acc : list item * gst) =>
                    match y with
                    | Grp _ l => dor o1 <- eval a l (snd acc);
-                                Ok (fst acc ++ [Grp (snd (snd o1)) (fst o1)], (fst (snd o1), S (snd (snd o1))))
+                                Ok (fst acc ++ [Grp (st_n (snd o1)) (fst o1)], ((st_r (snd o1), S (st_n (snd o1))), snd (snd o1)))
                    | It _ => Err EType end) 0 pop ([], st);
         Ok o
     | Flatten maxl => Ok (flat_map (fun y => match y with
                                              | It _ => [y]
                                              | Grp _ l => flat_item maxl 0 y end) pop, st)
     | Until maxa a =>
-        (fix go (k : nat) (st0 : est) : res (list item * est) :=
+        (fix go (k : nat) (st0 : gst) : res (list item * gst) :=
            match k with
            | O => Err EValue
            | S k' => dor o <- eval a pop st0;
@@ -351,3 +369,7 @@ Definition pop_ok (s : dspec) (pop : list item) : Prop := Forall (fun x => item_
 (* an operation maps valid populations to valid populations (when it does not raise) *)
 Definition closed {St : Type} (s : dspec) (f : list item -> St -> res (list item * St)) : Prop :=
   forall pop st pop' st', pop_ok s pop -> f pop st = Ok (pop', st') -> pop_ok s pop'.
+(* ... for expressions, which also read and write the global state: what is stored stays valid *)
+Definition gs_ok (s : dspec) (g : list (nat * list item)) : Prop := Forall (fun kv => pop_ok s (snd kv)) g.
+Definition closedg {E : Type} (s : dspec) (f : list item -> E * list (nat * list item) -> res (list item * (E * list (nat * list item)))) : Prop :=
+  forall pop st pop' st', pop_ok s pop -> gs_ok s (snd st) -> f pop st = Ok (pop', st') -> pop_ok s pop' /\ gs_ok s (snd st').
